@@ -3,6 +3,7 @@ item, collect the judged records, confirm failures before reporting them."""
 from __future__ import annotations
 
 import collections
+import os
 import time
 from typing import Any, Callable
 
@@ -89,6 +90,9 @@ def explore(
     """
     order = {K.stable_hash(c): i for i, c in enumerate(cases)}
     sched = sorted(cases, key=lambda c: -est_cost(c))
+    # VERIF_DEADLINE=<seconds> overrides the tier's time cap (slow or
+    # heavily shared machines)
+    deadline_s = float(os.environ.get('VERIF_DEADLINE', deadline_s))
     deadline = time.time() + deadline_s
     done: dict = {}
     status = collections.Counter()
@@ -117,7 +121,7 @@ def explore(
         first = next(c for c in cases if K.stable_hash(c) in done
                      and done[K.stable_hash(c)][1]['status'] == 'timeout')
         ctx.cap(f'{n_to} compiles exceeded the per-case limit of '
-                f'{K.time_limit(ctx.tier)}s and were abandoned (counted as '
+                f'{K.time_limit(ctx.tier)} CPU-seconds and were abandoned (counted as '
                 f'caps, not judged); first: {short(first)}')
 
     # ---------------------------------------------------------- coverage
